@@ -38,6 +38,7 @@ type File struct {
 	Package   string     `json:"package"`
 	GoPackage string     `json:"go_package,omitempty"`
 	NoGoPkg   bool       `json:"no_go_package,omitempty"`
+	Proto2    bool       `json:"proto2,omitempty"` // syntax = "proto2": every singular field has presence (pointer in Go), optional is a label
 	Imports   []string   `json:"imports,omitempty"`
 	Enums     []*Enum    `json:"enums,omitempty"`
 	Messages  []*Message `json:"messages,omitempty"`
